@@ -685,7 +685,7 @@ func (ex *Exec) slice(st *State, fr *Frame, x *ssa.Slice) {
 			return
 		}
 		f := st.top()
-		f.regs[x] = StrSub(b, lo, hi)
+		f.regs[x] = ex.nameTerm(st, StrSub(ex.nameTerm(st, b, "s"), lo, hi), "sub")
 		f.ip++
 	case SliceV:
 		capT := b.Cap
